@@ -290,6 +290,7 @@ def _raw(b):
 
 
 def setters(ctx, rep):
+    first = len(rep.instances)         # count this configuration's instances only (the thorough tier runs several into one report)
     flags = {}
     for path, c in ctx.mir.consts.items():
         m = re.match(r"^insim::insim::isi::IsiFlags::([A-Z_0-9]+)$", path)
@@ -334,7 +335,7 @@ def setters(ctx, rep):
             oks = src is not None and (src == ("arg", 2) or (src[0] == "call" and src[1].endswith("Into::into") and src[3][0] == ("arg", 2)))
             rep.check("R18.3", meth, ok and oks, "%s must assign exactly self.%s from its argument; found %s" % (meth, meth, [(a, fmt_origin(o)) for a, o in assigned]), b.loc(),
                       sample={"setter": meth, "assigns": [a for a, _o in assigned]})
-    rep.check("R18.3", "flag-setters", len([1 for i in rep.instances if i["rule"] == "R18.3" and "isi_flag_" in i["key"]]) == len(flags),
+    rep.check("R18.3", "flag-setters", len([1 for i in rep.instances[first:] if i["rule"] == "R18.3" and "isi_flag_" in i["key"]]) == len(flags),
               "one setter per IsiFlags constant expected (%d constants)" % len(flags), None, nontrivial=False)
     rep.floor("R18.3", 15)
 
